@@ -313,6 +313,49 @@ func c18RoundTrip(c *Ctx) {
 				c.Fail("64/"+e.name+"/then-"+op, "%s", d)
 			}
 		}
+		// second generation: the mutated bitmap is written again, loaded into a fresh bitmap and over itself
+		if !c.Failed() {
+			c.Step("second generation: serialize the mutated bitmap, reload it into a fresh bitmap and over itself")
+			c.Guard("64/"+e.name+"/second-generation", func() {
+				wire2, err := dm.B.ToBytes()
+				if err != nil || uint64(len(wire2)) != dm.B.GetSerializedSizeInBytes() {
+					c.Fail("64/"+e.name+"/second-generation/ToBytes", "ToBytes err=%v len=%d GetSerializedSizeInBytes=%d", err, len(wire2), dm.B.GetSerializedSizeInBytes())
+					return
+				}
+				fresh := roaring64.New()
+				if n2, err := fresh.ReadFrom(bytes.NewReader(wire2)); err != nil || n2 != int64(len(wire2)) {
+					c.Fail("64/"+e.name+"/second-generation/ReadFrom", "second generation ReadFrom = (%d,%v) for %d bytes", n2, err, len(wire2))
+					return
+				}
+				if d := checkEq64(fresh, dm.M); d != "" {
+					c.Fail("64/"+e.name+"/second-generation/content", "second generation (fresh receiver): %s", d)
+					return
+				}
+				var n2 int64
+				if r.Chance(0.5) {
+					n2, err = dm.B.ReadFrom(bytes.NewReader(wire2))
+				} else {
+					err = dm.B.UnmarshalBinary(heapInput(wire2))
+					n2 = int64(len(wire2))
+				}
+				if err != nil || n2 != int64(len(wire2)) {
+					c.Fail("64/"+e.name+"/second-generation/reload-over-itself", "reloading a 64-bit bitmap from its own bytes = (%d,%v) for %d bytes", n2, err, len(wire2))
+					return
+				}
+				if d := checkEq64(dm.B, dm.M); d != "" {
+					c.Fail("64/"+e.name+"/second-generation/reload-over-itself/content", "after reloading the bitmap from its own bytes: %s", d)
+					return
+				}
+				if !validate64(c, dm.B, "second-generation-"+e.name) {
+					return
+				}
+				op := mutateStep64(c, dm, false)
+				if d := checkEq64(dm.B, dm.M); d != "" && !c.Failed() {
+					c.Fail("64/"+e.name+"/second-generation/then-"+op, "%s", d)
+				}
+				c.Eval(4)
+			})
+		}
 	}
 	c.Sample(map[string]any{"unit": "roundtrip64", "case_seed": c.CaseSeed, "bytes": len(wire), "set": descSet(m)})
 }
